@@ -219,7 +219,8 @@ def run(ctx):
     for i in range(ctx.n(110, 4000)):
         label, data, rep = make_doc(ctx.rng, i)
         uri = ctx.rng.choice([docgen.NS15, docgen.NS15, 'urn:example:%d' % ctx.rng.randrange(1000), 'http://example.org/ns/%d' % ctx.rng.randrange(100),
-                              'http://example.org/my-ns/v%d#frag' % ctx.rng.randrange(9), 'urn:x-test:a~b,c?d=%d' % ctx.rng.randrange(9), 'tag:example.org,2026:collada+x'])
+                              'http://example.org/my-ns/v%d#frag' % ctx.rng.randrange(9), 'urn:x-test:a~b,c?d=%d' % ctx.rng.randrange(9), 'tag:example.org,2026:collada+x',
+                              'http://example.org/my%20schemas/collada', 'urn:x-percent:100%s%d%%'])
         prefixed = ctx.rng.random() < 0.4
         ctx.case(dict(kind=label, uri=uri, prefixed=prefixed, **rep))
         ctx.count('doc:' + label)
